@@ -11,8 +11,17 @@
                        in a subrepo defined by l, or (sub = true) u's package subincludes l;
      affected g E base the labels reachable from a base label over reverse E-edges;
      shown g incsub l  l passes the include/exclude labels and the subrepo filter of the query;
-     complete ... rep  every base label, and with level -1 every affected label, that is shown is in rep. *)
-From PlzV Require Import Base.Harness Model.C24 Proof.C24 Proof.C24_Gen.
+     complete ... rep  every base label, and with level -1 every affected label, that is shown is in rep.
+   Vocabulary for the level-limited report (Proof/C24_Level.v):
+     steps g E base k x       x is reached from a base label by exactly k reverse E-edges between targets of g;
+     within level k           k = 0, or level = -1, or k <= level  (levels below -1 behave like 0);
+     complete_within ... rep  every shown x with steps ... k x for some k within the level is in rep;
+     exact_within ... ch rep  x is in rep IF AND ONLY IF it is shown and steps ... k x from a label of ch, k within the level;
+     ch_files / ch_diff       the set changedTargets starts from (file consumers found by the package loop;
+                              plus, in the before/after form, the targets diffGraphs marks);
+     walk, dist_is, bfs_pops, bfs_states, sorted_q   the breadth-first search of findRevdeps (see below). *)
+From Coq Require Import Sorted.
+From PlzV Require Import Base.Harness Model.C24 Proof.C24 Proof.C24_Gen Proof.C24_Level.
 
 (* `plz query changes <files>`: nothing affected is missed *)
 Definition C24_files : Prop :=
@@ -105,4 +114,110 @@ Example C24_witnesses :
   /\ changes w_subrepo [s "third_party/sr.patch"] (-1) false = Some [2%N]
   /\ defect_class true w_subrepo true = None
   /\ changes w_subrepo [s "third_party/sr.patch"] (-1) true = Some [2; 0; 1]%N.
+Proof. vm_compute. repeat split. Qed.
+
+(* ------------------------------------------------------------------------------------------------------------- *)
+(* `plz query changes --level N`: every target within N reverse-dependency steps of a directly affected target is
+   reported (N = -1: all of them), in both forms of the query. *)
+Definition C24_level_statement : Prop :=
+  (forall g files level incsub,
+     exists rep, changes g files level incsub = Some rep
+       /\ forall k x, within level k -> steps g (depends true g) (fun l => exists t, direct g files t /\ t_id t = l) k x ->
+                      shown g incsub x = true -> In x rep)
+  /\ (forall cfg before after files level incsub,
+       exists rep, diff_changes cfg before after files level incsub = Some rep
+         /\ forall k x, within level k ->
+               steps after (depends false after)
+                 (fun l => (exists a, In a (g_targets after) /\ def_changed cfg before a /\ t_id a = l)
+                           \/ (exists t, direct after files t /\ t_id t = l)) k x ->
+               shown after incsub x = true -> In x rep).
+
+(* The two defect classes refute it already at level 1 (subincluding package) and level 2 (subrepo edge). *)
+Theorem C24_level_refuted : ~ C24_level_statement.
+Proof. intros [H _]. exact (level_files_claim_refuted H). Qed.
+Print Assumptions C24_level_refuted.
+
+Theorem C24_level_diff_refuted :
+  ~ (forall cfg before after files level incsub,
+       exists rep, diff_changes cfg before after files level incsub = Some rep
+         /\ complete_within after incsub level (depends false after) (base_diff cfg before after files) rep).
+Proof. exact level_diff_claim_refuted. Qed.
+Print Assumptions C24_level_diff_refuted.
+
+(* What holds for ALL graphs, file lists, flags and ALL levels (any integer; no bound on the graph):
+   (1) findRevdeps as changedTargets calls it (hidden = true: every edge costs one level) is a breadth-first search:
+       every (label, depth) it pops carries the true distance of the label from the start set (a walk of that length
+       exists, none shorter), the popped depths are non-decreasing, and at every loop head the queue is sorted, spans at
+       most two consecutive depths and every entry carries its true distance;
+   (2) its result is EXACTLY the labels with a walk of length k from the start set, 1 <= k <= N (any k >= 1 for N = -1,
+       none for N < -1);
+   (3,4) hence both forms of the query report EXACTLY: shown, and directly changed or within N steps of a directly
+       changed label over the edges the query records;
+   (5,6) outside the two defect classes the recorded edges ARE the dependency edges: the report is exact over `depends`
+       and complete for the directly affected targets of the property (complete_within, which implies `complete`);
+   (7) the start set is sound: a label is in it only because the package loop found a consumer of a listed file
+       (or, before/after form, diffGraphs marked it). *)
+Definition C24_level_partial_statement : Prop :=
+  (forall g incsub maxd labels fuel, (-1 <= maxd)%Z ->
+     (forall l d, In (l, d) (bfs_pops g incsub maxd fuel (init_state labels)) -> dist_is g incsub labels l d)
+     /\ StronglySorted Z.le (map snd (bfs_pops g incsub maxd fuel (init_state labels)))
+     /\ (forall st, In st (bfs_states g incsub maxd fuel (init_state labels)) ->
+           sorted_q (q st) /\ forall l d, In (l, d) (q st) -> dist_is g incsub labels l d))
+  /\ (forall g incsub maxd labels r, find_revdeps g incsub maxd labels = Some r ->
+        forall t, In t r <-> exists k, (1 <= k)%nat /\ (maxd = (-1)%Z \/ (Z.of_nat k <= maxd)%Z) /\ walk g incsub labels k t)
+  /\ (forall g files level incsub,
+        exists rep, changes g files level incsub = Some rep
+          /\ exact_within g incsub level (code_dep g incsub) (ch_files g files) rep)
+  /\ (forall cfg before after files level incsub,
+        exists rep, diff_changes cfg before after files level incsub = Some rep
+          /\ exact_within after incsub level (code_dep after incsub) (ch_diff cfg before after files) rep)
+  /\ (forall g files level incsub, defect_class true g incsub = None ->
+        exists rep, changes g files level incsub = Some rep
+          /\ exact_within g incsub level (depends true g) (ch_files g files) rep
+          /\ complete_within g incsub level (depends true g) (base_files g files) rep)
+  /\ (forall cfg before after files level incsub, defect_class false after incsub = None ->
+        exists rep, diff_changes cfg before after files level incsub = Some rep
+          /\ exact_within after incsub level (depends false after) (ch_diff cfg before after files) rep
+          /\ complete_within after incsub level (depends false after) (base_diff cfg before after files) rep)
+  /\ ((forall g files l, In l (ch_files g files) ->
+         exists f p t, In f files /\ owner g f = Some p /\ In t (pkg_targets g p) /\ has_abs_source t f = true /\ t_id t = l)
+      /\ (forall cfg before after files l, In l (ch_diff cfg before after files) ->
+            (exists a, In a (g_targets after) /\ t_id a = l /\ def_changed cfg before a)
+            \/ exists f p t, In f files /\ owner after f = Some p /\ In t (pkg_targets after p) /\
+                             has_abs_source t f = true /\ t_id t = l)).
+
+Theorem C24_level_partial : C24_level_partial_statement.
+Proof.
+  exact (conj find_revdeps_is_bfs (conj find_revdeps_exact (conj changes_exact (conj diff_exact
+          (conj changes_level_class (conj diff_level_class (conj ch_files_sound ch_diff_sound))))))).
+Qed.
+Print Assumptions C24_level_partial.
+
+(* Non-vacuity (graph d_g of Proof/C24_Level.v, a diamond): //p:x (x.c) <- //p:m <- //p:a <- //p:root and
+   //p:x <- //p:b <- //p:root.  //p:root is 2 steps from //p:x over b and 3 steps over a, m: the premises hold, the
+   level-limited reports are the expected ones (root appears at level 2), a level below -1 behaves like 0, and the
+   search pops every label with its distance, in order. *)
+Example C24_level_nonvacuous :
+  direct d_g [s "p/x.c"] d_x
+  /\ defect_class true d_g false = None
+  /\ steps d_g (depends true d_g) (base_files d_g [s "p/x.c"]) 2 4%N /\ within 2 2 /\ ~ within 1 2
+  /\ changes d_g [s "p/x.c"] 0 false = Some [0%N]
+  /\ changes d_g [s "p/x.c"] 1 false = Some [0; 1; 3]%N
+  /\ changes d_g [s "p/x.c"] 2 false = Some [0; 2; 1; 4; 3]%N
+  /\ changes d_g [s "p/x.c"] (-2) false = Some [0%N]
+  /\ bfs_pops d_g false 2 9 (init_state [0%N]) = [(0%N, 0%Z); (1%N, 1%Z); (3%N, 1%Z); (2%N, 2%Z); (4%N, 2%Z)]
+  /\ bfs_pops d_g false (-1) 9 (init_state [0%N]) = [(0%N, 0%Z); (1%N, 1%Z); (3%N, 1%Z); (2%N, 2%Z); (4%N, 2%Z)].
+Proof.
+  split; [exact d_direct|]. split; [reflexivity|]. split; [exact d_steps_root|].
+  split; [right; right; reflexivity|]. split; [unfold within; intros [H | [H | H]]; [discriminate | discriminate | exact (H eq_refl)]|].
+  repeat split; vm_compute; reflexivity.
+Qed.
+
+(* The level-limited defect witnesses: classified, and what the code answers on them. *)
+Example C24_level_witnesses :
+  defect_class true w_incl false = Some 2%N
+  /\ changes w_incl [s "defs/rules.build_defs"] 1 false = Some [0%N]
+  /\ defect_class false w_subrepo false = Some 1%N
+  /\ diff_changes false w_subrepo w_subrepo [s "third_party/sr.patch"] 2 false = Some [2%N]
+  /\ diff_changes false w_subrepo w_subrepo [s "third_party/sr.patch"] 2 true = Some [2; 0; 1]%N.
 Proof. vm_compute. repeat split. Qed.
